@@ -135,6 +135,39 @@ def analyse(ctx, replace=None, only=None):
             held = RU.held_at(ts, e) or set()
             R.check(any(h.endswith("thread_data.mutex") for h in held), "LOCK", "%s:%s" % (name, e.node["callee"]), where(f, e), "hand-over queue node unlinked with thread_data.mutex held",
                     "%s unlinks / links a hand-over queue node without holding thread_data.mutex (held: %s): the scheduler thread can take the queue in between and re-initialise the node" % (name, sorted(held)))
+    # a task's own list node (`task->node`) is what client threads link into the hand-over queue under the mutex: outside the
+    # mutex a function of this file looks at it / hands the task to something that unlinks it only for a task it took off a
+    # list itself (pop_front of a private copy, or of the queues after the join).  A task reached through a cancellation
+    # record may have been scheduled again and sit in the shared queue.
+    n_nodes = 0
+    for name, f in sorted(fns.items()):
+        if name == "aws_thread_scheduler_new":
+            continue
+        ts = RU.lockset(f)
+        for e in f.field_accesses(rec="aws_task", field="node"):
+            base = RU.uncast(f, e.node["a"][0])
+            held = RU.held_at(ts, e) or set()
+            if any(h.endswith("thread_data.mutex") for h in held):
+                n_nodes += 1
+                continue
+            own = False
+            o = RU.origin(f, base) if base is not None else None
+            for _ in range(4):
+                # AWS_CONTAINER_OF(node, struct aws_task, node): (T *)((uint8_t *)node - offsetof)
+                while o is not None and o["k"] == "bin" and o["op"] in ("-", "+"):
+                    o = RU.origin(f, o["a"][0])
+                if o is not None and o["k"] == "call" and o.get("callee") in ("aws_linked_list_pop_front", "aws_linked_list_pop_back"):
+                    own = True
+                    break
+                if o is not None and o["k"] == "var" and o.get("sc") == "param" and name not in ("s_process_cancellation",):
+                    # the task a client passes in: scheduling it (linking the node, under the mutex: checked above) is the caller's right
+                    own = e.mode in ("addr",)
+                    break
+                break
+            n_nodes += 1
+            R.check(own, "LOCK", "%s:task-node-outside-the-mutex" % name, where(f, e), "the task's list node is touched without the mutex only for a task taken off a list by this very code",
+                    "%s looks at / unlinks `%s` without holding thread_data.mutex, for a task it did not take off a list itself: the task may have been scheduled again and sit in the hand-over queue, which other threads are changing - the queue is corrupted (a task is lost) and a cancel request that predates the new scheduling cancels it" % (name, f.show(e.node)))
+    R.require(n_nodes >= 2, "only %d accesses to a task's list node found in thread_scheduler.c" % n_nodes)
     # ------------------------------------------------------------------ CONFINE (inner scheduler)
     n_inner = 0
     for name, f in sorted(fns.items()):
